@@ -189,7 +189,17 @@ class RuleGen:
             return atom(meth(var(root("F")), "CancelRet", atom(cint(r.range(0, 3)))))
         k = r.weighted([("arith", 6), ("heavy", 2 if self.p.methods else 0), ("sum", 1 if self.p.methods else 0),
                         ("len", 2 if self.p.lenreads else 0), ("mod", 1), ("bit", 1), ("geti", 1 if self.p.impure else 0),
-                        ("fail", 1 if r.chance(self.p.failures) else 0)])
+                        ("fail", 1 if r.chance(self.p.failures) else 0),
+                        ("strnum", 2)])
+        if k == "strnum":
+            # strings.Count / Index / LastIndex, also on JSON-backed strings and with repeated occurrences
+            cs = self.cells_of("str")
+            recv = var(r.choice(cs).var) if cs and r.chance(0.7) else cstr(r.choice(["abcabc", "a/b/a", "xx", "\u00e9-\u00e9", "a b a"]))
+            if r.chance(0.5):
+                recv = meth(recv, "Repeat", atom(cint(r.range(0, 3))))
+            return atom(meth(recv, r.choice(["Count", "Index", "LastIndex"]), self.const("str")))
+        # (selectors on call results — `F.GetA()[0]` — are generated by gen_c07 only: the engine caches the *addressable*
+        #  element there, a live alias the model's value semantics cannot express once the slice is also written)
         if k == "arith":
             return bin_(r.choice(["+", "-", "*", "+"]), self.expr("int", d - 1), self.expr("int", d - 1))
         if k == "mod":
@@ -276,7 +286,21 @@ class RuleGen:
         r = self.r
         if d <= 0 or r.chance(0.4):
             return self.read("str")
-        k = r.weighted([("cat", 4), ("catnum", 2), ("upper", 2), ("strm", 1 if self.p.methods else 0)])
+        k = r.weighted([("cat", 4), ("catnum", 2), ("upper", 2), ("strm", 1 if self.p.methods else 0), ("strfun", 2)])
+        if k == "strfun":
+            cs = self.cells_of("str")
+            recv = var(r.choice(cs).var) if cs and r.chance(0.7) else cstr(r.choice([" a b ", "abab", "\tx\n", "a"]))
+            f = r.choice(["Repeat", "Replace", "Trim"])
+            if f == "Repeat":
+                # constant receiver only: `F.S = F.S.Repeat(2)` in a loop would grow without bound
+                return atom(meth(cstr(r.choice(["ab", "x", "", "a b"])), "Repeat", atom(cint(r.range(0, 3)))))
+            if f == "Replace":
+                needle = self.const("str")
+                if needle == atom(cstr("")):
+                    # an empty needle inserts the replacement at every rune boundary: exponential in a loop over a cell
+                    recv = cstr(r.choice(["ab", "x", ""]))
+                return atom(meth(recv, "Replace", needle, self.const("str")))
+            return atom(meth(recv, "Trim"))
         if k == "cat":
             return bin_("+", self.expr("str", d - 1), self.expr("str", d - 1))
         if k == "catnum":
@@ -512,7 +536,7 @@ class RuleGen:
         f = fact(I=small(), J=r.choice([0, 0, 1, 2]), I8=r.choice([0, 1, 126, -128]), I16=small(), I32=small(), In=small(),
                  U8=r.choice([0, 1, 2, 254]), U16=small(), U32=small(), U64=small(), Un=small(),
                  F=r.choice([0.0, 0.5, 1.5, 2.5]), G=r.choice([0.0, 1.0, -0.5]), F32=r.choice([0.0, 0.5, 1.25]),
-                 S=r.choice(["", "a", "ab", "abc"]), T=r.choice(["", "b", "xy"]), B=r.chance(0.5), C=r.chance(0.5),
+                 S=r.choice(["", "a", "ab", "abc", "abab", "a/b/a"]), T=r.choice(["", "b", "xy", "xyx"]), B=r.chance(0.5), C=r.chance(0.5),
                  P=sub(N=small(), S=r.choice(["", "p"]), B=r.chance(0.5), F=r.choice([0.0, 1.5])), Q=None,
                  V=sub(N=small(), S=r.choice(["", "v"])),
                  A=[small(), small(), small()], AS=["x", "y"], AF=[0.5, 1.5],
@@ -521,7 +545,7 @@ class RuleGen:
                  X=leaf("int64", small()))
         st = [["F", f], ["N", leaf("int64", small())], ["K", leaf("int64", small())], ["TS", leaf("string", r.choice(["", "t"]))],
               ["TB", leaf("bool", r.chance(0.5))], ["TF", leaf("float64", r.choice([0.0, 0.5]))],
-              ["J", jtree({"n": small(), "m": 1.5, "s": r.choice(["", "js"]), "b": r.chance(0.5), "o": {"n": small()},
+              ["J", jtree({"n": small(), "m": 1.5, "s": r.choice(["", "js", "jsjs", "a/b/a", "s s"]), "b": r.chance(0.5), "o": {"n": small()},
                            "a": [small(), 2], "g": [[small(), 1], [small(), 2]]})]]
         return st
 
